@@ -1,6 +1,6 @@
 //! C17 harness: formatter corpus records for FormatRel.tla, Render.tla replay, layout mutants.
 //!
-//!   vfmt corpus  <list-file> <width>... -o <records.ndjson> -d <diag.ndjson> -t <tables.json>
+//!   vfmt corpus  <list-file> <width>... -o <records.ndjson> -d <diag.ndjson> -t <tables.json> [-b <id base>]
 //!   vfmt render  <rows-file>
 //!   vfmt mutants <list-file> <out-dir> <seed> <per-file>
 //!   vfmt one     <file> <width>
@@ -375,6 +375,7 @@ fn cmd_corpus(mut args: Vec<String>) {
     let out_path = opt(&mut args, "-o").expect("-o records");
     let diag_path = opt(&mut args, "-d").expect("-d diag");
     let tab_path = opt(&mut args, "-t").expect("-t tables");
+    let id_base: usize = opt(&mut args, "-b").map(|b| b.parse().expect("id base")).unwrap_or(0);
     let files = read_list(&args[0]);
     let widths: Vec<u32> = args[1..].iter().map(|w| w.parse().expect("width")).collect();
     let mut rec_f = std::io::BufWriter::new(std::fs::File::create(&out_path).unwrap());
@@ -407,7 +408,7 @@ fn cmd_corpus(mut args: Vec<String>) {
         let lx = lex_text(&text);
         for &w in &widths {
             nrec += 1;
-            let r = run_one(nrec, path, &text, &lx, &facts, w, &mut tb);
+            let r = run_one(id_base + nrec, path, &text, &lx, &facts, w, &mut tb);
             ntok += lx.code.len();
             let mut d = r.diag;
             d["fi"] = json!(fi);
